@@ -705,14 +705,23 @@ class History:
     def ps(self):
         return make_ps(self.cur["rules"], self.cur.get("ps_form", "rules"))
 
+    def hand_ps(self, who: str):
+        """the post-selection value handed to the long-lived object `who`; the harness keeps ITS OWN reference, so that
+        a rule can later be added in place to the very object that was handed over (kind "ps_grow")"""
+        v = self.ps()
+        if not hasattr(self, "handed"):
+            self.handed = {}
+        self.handed[who] = v
+        return v
+
     def make_objects(self, c) -> dict:
         cur = self.cur
         s0 = lw.State(cur["inputs"][0])
         an = emulator.Analyzer(c)
         if cur["rules"] or cur.get("ps_form") == "fn":
-            an.post_selection = self.ps()
+            an.post_selection = self.hand_ps("an")
         return {"sim": emulator.Simulator(c), "smp": emulator.Sampler(c, s0), "an": an,
-                "qs": emulator.QuickSampler(c, s0, photon_counting=cur["pnr"], post_select=self.ps())}
+                "qs": emulator.QuickSampler(c, s0, photon_counting=cur["pnr"], post_select=self.hand_ps("qs"))}
 
     def make_one(self, c, obj: str):
         cur = self.cur
@@ -757,8 +766,8 @@ class History:
                         o[k].input_state = lw.State(s0)
             self.cur = new
             if rules is not None:
-                o["an"].post_selection = self.ps()
-                o["qs"].post_select = self.ps()
+                o["an"].post_selection = self.hand_ps("an")
+                o["qs"].post_select = self.hand_ps("qs")
         elif kind == "inputs":
             new = dict(cur, inputs=st[1])
             if not config_ok(self.fresh_circuit(cur["circuit"]), new):
@@ -771,8 +780,24 @@ class History:
             if not config_ok(self.fresh_circuit(cur["circuit"]), new):
                 return False
             self.cur = new
-            o["an"].post_selection = self.ps()
-            o["qs"].post_select = self.ps()
+            o["an"].post_selection = self.hand_ps("an")
+            o["qs"].post_select = self.hand_ps("qs")
+        elif kind == "ps_grow":
+            # one more rule added IN PLACE to the PostSelection objects that were handed to the Analyzer and the
+            # QuickSampler (through the harness's own references): the rule set they apply is the object's current one
+            handed = getattr(self, "handed", {})
+            if cur.get("ps_form", "rules") != "rules" or not cur["rules"]:
+                return False
+            if not all(isinstance(handed.get(k), lw.PostSelection) for k in ("an", "qs")):
+                return False
+            new = dict(cur, rules=[*cur["rules"], st[1]])
+            if rules_overlap(new["rules"]) and not rules_overlap(cur["rules"]):
+                return False  # the objects handed over were created without multi_rules
+            if not config_ok(self.fresh_circuit(cur["circuit"]), new):
+                return False
+            for k in ("an", "qs"):
+                handed[k].add(tuple(st[1][0]), tuple(st[1][1]))
+            self.cur = new
         elif kind == "pnr":
             self.cur = dict(cur, pnr=bool(st[1]))
             o["qs"].photon_counting = bool(st[1])
@@ -1149,8 +1174,17 @@ def gen_history(ctx: Ctx, rng):
     init = json.loads(json.dumps(sh))
 
     def reconf() -> list:
-        kind = rng.choice(["circuit", "circuit", "circuit", "inputs", "inputs", "ps", "ps", "pnr", "param", "mutate"])
+        kind = rng.choice(["circuit", "circuit", "circuit", "inputs", "inputs", "ps", "ps", "ps_grow", "ps_grow", "pnr", "param",
+                           "mutate"])
         im = meta[sh["circuit"]][0]
+        if kind == "ps_grow":
+            nph = sum(sh["inputs"][0])
+            used = {m for ms, _ in sh["rules"] for m in ms}
+            free = [m for m in range(im) if m not in used] or list(range(im))
+            rule = [[rng.choice(free)], sorted({rng.randint(0, nph), rng.randint(0, nph)})]
+            if sh["rules"] and sh.get("ps_form", "rules") == "rules":
+                sh["rules"] = [*sh["rules"], rule]
+            return ["ps_grow", rule]
         if kind == "circuit":
             # re-declarations of the heralds on the same network (same U_full) are the likeliest targets
             cands = [x for x in meta if x != sh["circuit"]] or list(meta)
